@@ -34,6 +34,9 @@ OtherSigners == { PauseProtocol(s, "CCTP") : s \in {"AUTH_UPPER", "AUTH_SPACE", 
 
 ProbeFws == { FwCCTP(0, "MINT_A", "NONE"), FwCCTP(1, "MINT_A", "NONE"), FwHYP("T1", 1, "R_A"), FwHYP("T1", 2, "R_A"), FwINT("U") }
 Probes == { Xfer(0, "uusdc", 1000, fw, acts) : fw \in ProbeFws, acts \in { <<>>, <<FeeAct(<<Bps(100, "F1")>>)>> } }
+\* a fee action WITHOUT entries is a valid payload (nothing to pay): it still CONTAINS the action, so it
+\* is refused while the fee action is paused and goes through otherwise
+EmptyFeeProbes == { Xfer(0, "uusdc", 1000, fw, <<FeeAct(<<>>)>>) : fw \in { FwINT("U"), FwCCTP(0, "MINT_A", "NONE") } }
 PtProbes == { Xfer(0, "uusdc", 1000, [FwINT("U") EXCEPT !.pt = n], <<>>) : n \in {1, 2, 3, 64, 65} }
              \cup { Xfer(0, "uusdc", 1000, [FwCCTP(0, "MINT_A", "NONE") EXCEPT !.pt = 2], <<>>) }
 
@@ -42,7 +45,7 @@ PtProbes == { Xfer(0, "uusdc", 1000, [FwINT("U") EXCEPT !.pt = n], <<>>) : n \in
 NoCtlProbes == { Xfer(0, "uusdc", 1000, FwINT("U"), <<[id |-> "SWAP", at |-> "FEE", fees |-> <<Bps(100, "F1")>>]>>),
                  Xfer(0, "uusdc", 1000, [FwINT("U") EXCEPT !.pid = "IBC"], <<>>),
                  Xfer(0, "uusdc", 1000, [FwCCTP(0, "MINT_A", "NONE") EXCEPT !.pid = "IBC"], <<>>) }
-MCAlphabet == {EnvIn("nextblock", "")} \cup NoCtlProbes \cup ProtoMsgs \cup CCMsgs \cup ActMsgs \cup ParamMsgs \cup OtherSigners \cup Probes \cup PtProbes \cup {ReimportIn}
+MCAlphabet == {EnvIn("nextblock", "")} \cup EmptyFeeProbes \cup NoCtlProbes \cup ProtoMsgs \cup CCMsgs \cup ActMsgs \cup ParamMsgs \cup OtherSigners \cup Probes \cup PtProbes \cup {ReimportIn}
 SmallAlphabet == { PauseProtocol("AUTH", "CCTP"), UnpauseProtocol("AUTH", "CCTP"), PauseProtocol("AUTH", "INT"),
                    PauseCC("AUTH", "CCTP", <<Cp0>>), PauseCC("AUTH", "CCTP", <<Cp0, Cp1>>), UnpauseCC("AUTH", "CCTP", <<Cp0>>),
                    PauseCC("AUTH", "HYP", <<Cp1>>), PauseCC("AUTH", "CCTP", <<Cp1, CpChan>>), PauseCC("AUTH", "CCTP", <<>>),
@@ -50,13 +53,13 @@ SmallAlphabet == { PauseProtocol("AUTH", "CCTP"), UnpauseProtocol("AUTH", "CCTP"
                    UpdateParams("AUTH", 2), UpdateParams("AUTH", 0), UpdateParams("M", 7), PauseProtocol("M", "CCTP"), ReimportIn,
                    PauseCC("M", "CCTP", <<>>), UnpauseCC("M", "CCTP", <<>>), UnpauseProtocol("M", "CCTP"), UnpauseAction("M", "FEE") }
                  \cup Probes \cup { Xfer(0, "uusdc", 1000, [FwINT("U") EXCEPT !.pt = n], <<>>) : n \in {2, 3} }
-                 \cup NoCtlProbes \cup { PauseAction("AUTH", "SWAP"), PauseProtocol("AUTH", "IBC") }
+                 \cup NoCtlProbes \cup EmptyFeeProbes \cup { PauseAction("AUTH", "SWAP"), PauseProtocol("AUTH", "IBC") }
 
 StepProps == [][ /\ Prop_C08(last') /\ Prop_C09(last') /\ Prop_C10(last') /\ Prop_C18(last')
                  /\ Prop_C01(last') /\ MC_C02(last') /\ Prop_C05(last') /\ Prop_C12(last') /\ Prop_C17(last') ]_vars
 
 \* payloads that do not contain a paused action / destination behave as if nothing were paused (C08/C09)
-Unaffected == \A in \in Probes :
+Unaffected == \A in \in Probes \cup EmptyFeeProbes :
                  (~Blocked(st, <<PidOf(in.fw.pid), CpOf(in.fw)>>) /\ ~ActionPaused(st, in))
                    => Apply(st, in).ok = Apply(NoPause(st), in).ok
 Depth == TRUE
